@@ -13,8 +13,9 @@ def errkind(e):
 
 
 class Leaf:
-    def __init__(self, lid, perm, signs, offs, invertible=True):
+    def __init__(self, lid, perm, signs, offs, invertible=True, custom=None):
         self.lid, self.perm, self.signs, self.offs, self.invertible = lid, perm, signs, offs, invertible
+        self.custom = custom       # a Leaf used as user-supplied inverse
 
     def model(self):
         from astropy.modeling import models
@@ -26,7 +27,10 @@ class Leaf:
             for k in range(1, n):
                 sc = sc & models.Scale(self.signs[k])
                 sh = sh & models.Shift(self.offs[k])
-            return m | sc | sh
+            out = m | sc | sh
+            if self.custom is not None:
+                out.inverse = self.custom.model()
+            return out
         pl = models.Polynomial1D(1, c0=self.offs[0], c1=self.signs[0])
         for k in range(1, n):
             pl = pl & models.Polynomial1D(1, c0=self.offs[k], c1=self.signs[k])
@@ -37,7 +41,10 @@ class Leaf:
 
     def coq_def(self):
         return ("{| lperm := " + glist([f"{p}%nat" for p in self.perm]) + "; lsign := " + gzl(self.signs) +
-                "; loff := " + gzl(self.offs) + " |}")
+                "; loff := " + gzl(self.offs) + "; lcustom := " +
+                ("None" if self.custom is None else
+                 "(Some (" + glist([f"{p}%nat" for p in self.custom.perm]) + ", " + gzl(self.custom.signs) + ", " + gzl(self.custom.offs) + "))")
+                + " |}")
 
     def coq_model(self):
         return f"(Some {{| te := Leaf {gz(self.lid)} {'true' if self.invertible else 'false'}; mbox := None |}})"
